@@ -39,9 +39,10 @@ const (
 	kSetIdentity
 	kJoinBad
 	nKinds
+	kRecv = nKinds // the consumer of a streaming Iterator takes the next entry (not a log operation)
 )
 
-var kindNames = [...]string{"Append", "Join", "Values", "Heads", "RawHeads", "GetEntries", "Get", "Has", "Len", "ToSnapshot", "ToJSONLog", "ToMultihash", "Iterator", "ToString", "SetIdentity", "JoinBad"}
+var kindNames = [...]string{"Append", "Join", "Values", "Heads", "RawHeads", "GetEntries", "Get", "Has", "Len", "ToSnapshot", "ToJSONLog", "ToMultihash", "Iterator", "ToString", "SetIdentity", "JoinBad", "Recv"}
 
 type opDesc struct {
 	kind    int
@@ -57,6 +58,8 @@ type opDesc struct {
 	iterUp  int  // Iterator: 0 default upper bound (the heads), 1 LTE hash, 2 LT hash
 	pick    int  // Iterator with a bound: which of the entries the log holds at that moment (0: the first one)
 	failAdd bool // the block write of this operation fails (disk error)
+	stream  int  // > 0: Iterator streaming into / Recv taking from streams[stream-1], a channel too small for the result
+	drain   bool // Recv: keep taking until the stream is over
 }
 
 type opRec struct {
@@ -101,6 +104,8 @@ type e1World struct {
 	ctx    context.Context
 	byHash bool
 	evil   *ipfslog.IPFSLog
+	// streaming iterations: the consumer takes the entries one by one and works on the logs in between
+	streams []*stream
 }
 
 // per-task scratch (task-local; read by the harness only after the run)
@@ -303,11 +308,27 @@ func (w *e1World) exec(t *task, tc *taskCtx, d opDesc) {
 		case 2:
 			io.LT = []cid.Cid{bound}
 		}
+		if d.stream > 0 {
+			// the entries go to another task through a channel that cannot hold them all (rec.seq is put
+			// together from that task's receipts after the run)
+			st := w.streams[d.stream-1]
+			func() {
+				streamBegin(t, st)
+				defer streamEnd(t, st)
+				rec.err = l.Iterator(io, st.ch)
+			}()
+			break
+		}
 		rec.err = l.Iterator(io, ch)
 		if rec.err == nil {
 			for e := range ch {
 				rec.seq = append(rec.seq, e.GetHash().String())
 			}
+		}
+	case kRecv:
+		var e iface.IPFSLogEntry
+		if e, rec.flag = e1Recv(w.streams[d.stream-1]); rec.flag {
+			rec.hash = e.GetHash().String()
 		}
 	case kToString:
 		rec.n = len(strings.Split(l.ToString(nil), "\n"))
@@ -503,6 +524,65 @@ func genE1(r *Run, prop string) (*e1World, *e1Config) {
 		}
 		cfg.tasks = append(cfg.tasks, ops)
 	}
+	if (prop == "C13" || prop == "C14") && r.Choose("with-stream", 3) == 0 {
+		// one more pair of tasks: an iteration that streams its result through a channel too small for it, and
+		// the consumer of that stream, which works on the logs between two entries it takes (acknowledges what
+		// it received, looks entries up, merges). Together with the writers among the other tasks.
+		r.Probe("streaming-iterator-with-working-consumer")
+		x := 0
+		if !cfg.shared {
+			x = r.Choose("stream-log", cfg.nlogs)
+		}
+		w.streams = append(w.streams, &stream{ch: make(chan iface.IPFSLogEntry, r.Choose("stream-cap", 3))})
+		it := opDesc{kind: kIterator, target: x, stream: 1, iterUp: []int{0, 0, 1, 2}[r.Choose("stream-upper", 4)], pick: r.Choose("iter-pick", 1<<16)}
+		if len(known) > 0 {
+			it.hash = known[r.Choose("known", len(known))]
+		} else {
+			it.iterUp = 0
+		}
+		var prod, cons []opDesc
+		if r.Choose("stream-late", 3) == 0 {
+			pseq++
+			prod = append(prod, opDesc{kind: kAppend, target: x, pc: 1, payload: []byte(fmt.Sprintf("t%d-%d", cfg.ntasks, pseq))})
+		}
+		prod = append(prod, it)
+		nrecv := r.Choose("stream-recvs", 4)
+		for k := 0; k < nrecv; k++ {
+			cons = append(cons, opDesc{kind: kRecv, target: x, stream: 1})
+			d := opDesc{target: x, pc: 1}
+			switch r.Choose("consumer-op", 8) {
+			case 0, 1:
+				continue
+			case 2, 3:
+				pseq++
+				d.kind, d.payload = kAppend, []byte(fmt.Sprintf("t%d-%d", cfg.ntasks+1, pseq))
+			case 4:
+				d.kind = kLen
+			case 5:
+				d.kind = kValues
+			case 6:
+				d.kind = kJoin
+				other := (x + 1 + r.Choose("join-off", cfg.nlogs-1)) % cfg.nlogs
+				if cfg.shared {
+					d.src = 1 + r.Choose("join-src", cfg.nlogs-1)
+				} else if r.Choose("stream-join-dir", 2) == 0 {
+					d.target, d.src = other, x // a merge from the log that is being streamed
+				} else {
+					d.src = other
+				}
+			default:
+				if len(known) == 0 {
+					d.kind = kLen
+				} else {
+					d.kind, d.hash = []int{kGet, kHas}[r.Choose("point-read", 2)], known[r.Choose("known", len(known))]
+				}
+			}
+			cons = append(cons, d)
+		}
+		cons = append(cons, opDesc{kind: kRecv, target: x, stream: 1, drain: true})
+		cfg.tasks = append(cfg.tasks, prod, cons)
+		cfg.ntasks += 2
+	}
 	return w, cfg
 }
 
@@ -531,6 +611,9 @@ func RunE1(r *Run, prop string) {
 			tc := taskCtxs[t]
 			for _, d := range ops {
 				w.exec(t, tc, d)
+				for d.drain && t.ops[len(t.ops)-1].flag {
+					w.exec(t, tc, d)
+				}
 			}
 		})
 		var ds []string
@@ -589,6 +672,33 @@ func (w *e1World) evaluate(s *sched, cfg *e1Config) {
 	}
 	sort.Slice(all, func(i, j int) bool { return all[i].inv < all[j].inv })
 	sort.Slice(points, func(i, j int) bool { return points[i].stamp < points[j].stamp })
+	// a streaming iteration's result is what its consumer received, in that order
+	{
+		var ops []*opRec
+		got := map[int][]string{}
+		for _, o := range all {
+			if o.d.kind == kRecv {
+				if o.flag {
+					got[o.d.stream] = append(got[o.d.stream], o.hash)
+				}
+				r.Logf("op T%d Recv [%d,%d] -> %v", o.task, o.inv, o.ret, o.flag)
+				continue
+			}
+			ops = append(ops, o)
+		}
+		all = ops
+		for _, o := range all {
+			if o.d.kind == kIterator && o.d.stream > 0 {
+				o.seq = got[o.d.stream]
+				if o.err != nil && len(o.seq) > 0 {
+					r.Violate(prop+":read-error", "Iterator on %s failed (%v) after handing out %d entries", w.names[o.d.target], o.err, len(o.seq))
+				}
+				if len(o.seq) > cap(w.streams[o.d.stream-1].ch) {
+					r.Probe("stream-longer-than-its-channel")
+				}
+			}
+		}
+	}
 	for _, o := range all {
 		extra := ""
 		if o.d.kind == kJoin {
